@@ -9,7 +9,7 @@ head = design.split(MARK)[0].rstrip() + "\n"
 out = [MARK]
 out.append("\n## Appendix C — engines as built (one note per engine, written by the engine's author)\n")
 order = ["fifo", "crc", "usb2tok", "usb2data", "usb2ctl", "usb2desc", "usb2ep", "usb2iso", "usbserial", "usb2reset", "ulpi",
-         "fsphy", "periph1", "periph2", "ss_phys", "ss_linka", "ss_linkb", "ss_linklayer", "ss_ltssm", "ss_proto"]
+         "fsphy", "periph1", "periph2", "ss_phys", "ss_linka", "ss_linkb", "ss_linklayer", "ss_ltssm", "ss_proto", "usb2stack", "ss_device"]
 for e in order:
     p = "%s/docs/%s.md" % (V, e)
     if os.path.exists(p):
